@@ -18,6 +18,7 @@ func runC15(p *core.Prog, r *core.Report) {
 	c15CheckIndexes(c)
 	c15Create(c)
 	c15Verify(c)
+	c15Reconstruct(c)
 }
 
 // onlyUnder: every occurrence of a term matching elem inside t is the first argument of a
